@@ -6,4 +6,5 @@ var verifHarnesses = map[string]func(){
 	"VerifC01ConsumerApply":   VerifC01ConsumerApply,
 	"VerifC09ConsumerSend":    VerifC09ConsumerSend,
 	"VerifC08ConsumerReports": VerifC08ConsumerReports,
+	"VerifC16ConsumerSplit":   VerifC16ConsumerSplit,
 }
